@@ -71,4 +71,5 @@ package cert
 //@     (result <==> inWindow(cert.ValidAfter, cert.ValidBefore, tUnix(currentTime))) && calls(time.Now) == old(calls(time.Now))
 //@   ensures [wall-clock] (cert != nil && tIsZero(currentTime)) ==> calls(time.Now) == old(calls(time.Now)) + 1 &&
 //@     (result <==> inWindow(cert.ValidAfter, cert.ValidBefore, tUnix(ret(time.Now, old(calls(time.Now)), 0))))
-//@   ensures [forever-never-expires] (cert != nil && cert.ValidBefore == 18446744073709551615 && cert.ValidAfter == 0) ==> result
+//@   ensures [forever-never-expires] (cert != nil && cert.ValidBefore == 18446744073709551615 && cert.ValidAfter == 0 &&
+//@     (tIsZero(currentTime) || tUnix(currentTime) >= 0)) ==> result
